@@ -619,7 +619,12 @@ impl<T: Object> Object for Vec<T> {
             Primitive::Null => {
                 Vec::new()
             }
-            Primitive::Reference(id) => Self::from_primitive(r.resolve(id)?, r)?,
+            Primitive::Reference(id) => match r.resolve(id) {
+                Ok(p) => Self::from_primitive(p, r)?,
+                // a reference to an object that does not exist is a reference to null
+                Err(e) if e.is_missing_object() => Vec::new(),
+                Err(e) => return Err(e)
+            },
             _ => vec![T::from_primitive(p, r)?]
         }
         )
@@ -715,7 +720,12 @@ impl<V: Object> Object for HashMap<Name, V> {
                 }
                 Ok(new)
             }
-            Primitive::Reference (id) => HashMap::from_primitive(resolve.resolve(id)?, resolve),
+            Primitive::Reference (id) => match resolve.resolve(id) {
+                Ok(p) => HashMap::from_primitive(p, resolve),
+                // a reference to an object that does not exist is a reference to null
+                Err(e) if e.is_missing_object() => Ok(HashMap::new()),
+                Err(e) => Err(e)
+            },
             p => Err(PdfError::UnexpectedPrimitive {expected: "Dictionary", found: p.get_debug_name()})
         }
     }
